@@ -760,6 +760,7 @@ pub fn run(run: &mut Run) -> Result<(), String> {
                 plan.raws.push((Box::new(Checks { n: 2 }), b(0, 0)));
                 plan.raws.push((Box::new(EpUniverse::full()), b(0, 0)));
             }
+            plan.walk = Some(if q { (40, 40, 4, 7, b(0, 0)) } else { (240, 60, 2, 7, b(0, 0)) });
             run.tag = " [try_play]".into();
             run_plan(run, &plan, &C15 { with_play: false }, &NoCand);
             // plan B: the panicking `play` over the same 28,672 values on a small family (each
@@ -777,6 +778,12 @@ pub fn run(run: &mut Run) -> Result<(), String> {
             }
         }
         _ => unreachable!(),
+    }
+    // deterministic long walks from real starts (10-60 plies of history behind every root)
+    if !pext && prop != "C15" {
+        let heavy = prop == "C04" || prop == "C16";
+        let depth = if prop == "C02" || heavy { 0 } else { 1 };
+        plan.walk = Some(if q { (if heavy { 60 } else { 240 }, 40, 2, 7, b(depth, 1)) } else { (if heavy { 240 } else { 960 }, 60, 1, 7, b(depth, 1)) });
     }
     let mon = monitor_for(&prop, !q);
     run.rule = match prop.as_str() {
